@@ -23,11 +23,20 @@ RULE = ('families. modattr-*: a Host with random nested vars (depth<=3, empty co
         'run, arrays and dictionaries with 10^5 entries, 1000 objects in one state file, nesting 123..127 (thorough 1..1000) around '
         'the JSON decoder limit; atomic-fault: the n-th write/fsync/rename/openat/chmod of a persisting write fails with '
         'ENOSPC/EIO/EDQUOT/EACCES/EMFILE/EPERM (strace inject=...:error=...), process must go on, file old or new and loadable. '
+        'dma-text: 1-3 hosts, modifications of vars / vars.<k> / vars.sub.x / notes with values over the C17 key and string alphabet at every '
+        'depth (EMPTY key, dots, quotes, backslash, line breaks, NUL, leading digit, UTF-8, writer keywords, statement/comment/heredoc look-alikes, '
+        'empty strings/arrays/dictionaries; a few cases with the lexer-only keywords in/debugger), DumpModifiedAttributes + reload or full '
+        'restart, the bytes of every block of the real file compared by digest with the Gallina writer text, the real CompileFile outcome with '
+        'the Gallina lexer+parser; repeat-empty-original: every kind of empty-valued original (null, "", 0, false, [], missing key / nested key / '
+        'intermediate, empty notes, unset vars) modified 2-4 times, interleaved, restored; repeat-dict-perkey: the per-key copies of the '
+        'remember test with empty-valued entries. '
         'non-trivial = at least one modify, dump or traced write; distinct = distinct script text')
 TRUSTED = ['model: coq/Persist/PsModel.v (transcription of ConfigObject::ModifyAttribute/RestoreAttribute/DumpModifiedAttributes, '
            'serializer.cpp Serialize/Deserialize, AtomicFile system-call pattern)',
-           'JSON/netstring framing of the state file and the config writer/lexer pair are identity on the generated values except for '
-           'EmitNumber (modelled on decimals); their round trips are the subject of C20/C17',
+           'JSON/netstring framing of the state file is the identity on the generated values (C20 decides it); for modified-attributes.conf '
+           'the writer / lexer / literal parser are the Gallina model of C17 (coq/Cw/CwModel.v, tables regenerated from /repo) composed with '
+           'coq/Persist/PsText.v; the statement context around the literals (obj.modify_attribute(..), obj.version = ..) is compared byte for '
+           'byte by digest, its parse is not modelled',
            'strace(1) output as the observation of system calls; ptrace-based kill injection',
            'hook H1 (virtual clock) in lib/base/utility.cpp']
 ASSUMPTIONS = ['numbers are finite decimals of at most 9 significant digits (exact shortest round trip through binary64)',
